@@ -255,6 +255,20 @@ pub fn run(args: &Args) -> ! {
             }
         }
     }
+    // `dir/*` style rules (a literal prefix followed by one wildcard component)
+    // with a later re-include of something below: the wildcard must not reach
+    // further down than one component
+    {
+        let stars = ["/d/*", "d/*", "/d/a/*", "d/a/*", "/a/*", "/b/*", "/d/*/", "/d/a/?", "/A/*"];
+        let backs = ["!/d/a/", "!/d/a", "!d/a/b/", "!/d/a/b", "!/d/b/a/", "!/a/b/", "!/a/a", "!/b/a/", "!/A/a/"];
+        for st in stars {
+            cases.push(Case { root: format!("{}\n", st), nested: None, icase: false });
+            for bk in backs {
+                cases.push(Case { root: format!("{}\n{}\n", st, bk), nested: None, icase: false });
+                cases.push(Case { root: format!("{}\n{}\n", st, bk), nested: None, icase: true });
+            }
+        }
+    }
     let ncases = cases.len();
     let shards = ncpu();
     let next = std::sync::atomic::AtomicUsize::new(0);
@@ -378,7 +392,7 @@ pub fn run(args: &Args) -> ! {
     ev.set(
         "rule",
         format!(
-            "tree: 152 files over names {{ab,a.b,.a,a-b,a*,[a],a?,c,a,b,A,a.}} in directories {{.,a,b,a.,A}} x {{.,a,b}} plus d/{{a,b}}/{{a,b}}/{{a,b}}. Ignore-file contents: every single line that is a token string of length <= {} over {:?}; ordered pairs of lines (length <= 2 each{}); a root line with a nested a/.gitignore line; case-insensitive variants; trailing blanks, escaped blanks, comments; every ordered pair (with each negation pattern) and ignore / re-include / ignore triples over the 12 lines **/x/y and **/x/y/z with x,y,z in {{a,b}} (several multi-component literal suffixes in one file). Oracle: git {} (`git ls-files -o --exclude-standard`) in a scratch repository per shard. Observation: the set of files the real ignore::Walk yields with only .gitignore active. Lines containing '//' or a backslash before '/' are skipped (no specification). distinct_nontrivial = contents for which git ignores at least one file.",
+            "tree: 152 files over names {{ab,a.b,.a,a-b,a*,[a],a?,c,a,b,A,a.}} in directories {{.,a,b,a.,A}} x {{.,a,b}} plus d/{{a,b}}/{{a,b}}/{{a,b}}. Ignore-file contents: every single line that is a token string of length <= {} over {:?}; ordered pairs of lines (length <= 2 each{}); a root line with a nested a/.gitignore line; case-insensitive variants; trailing blanks, escaped blanks, comments; every ordered pair (with each negation pattern) and ignore / re-include / ignore triples over the 12 lines **/x/y and **/x/y/z with x,y,z in {{a,b}} (several multi-component literal suffixes in one file); nine `dir/*` rules each followed by nine re-includes of something further down. Oracle: git {} (`git ls-files -o --exclude-standard`) in a scratch repository per shard. Observation: the set of files the real ignore::Walk yields with only .gitignore active. Lines containing '//' or a backslash before '/' are skipped (no specification). distinct_nontrivial = contents for which git ignores at least one file.",
             tier.pick(4, 5), TOKENS, if tier == Tier::Quick { ", every 2nd line" } else { "" },
             String::from_utf8_lossy(&Command::new("git").arg("--version").output().map(|o| o.stdout).unwrap_or_default()).trim()
         ),
